@@ -141,7 +141,7 @@ Definition cpr_feature : N := GenLL.feature_connection_parameters_request_proced
    responses that become due, and whether the connection has to end / the trace leaves the scope *)
 Inductive pres := PGo | PStop | PClosed.
 
-Fixpoint process27 (fuel : nat) (c : cfg) (m : mon27) (has_cpr_cb : bool) (acc : list expect) : mon27 * list expect * pres :=
+Fixpoint process27 (fuel : nat) (c : cfg) (m : mon27) (cbs : list (N * N * N * N)) (acc : list expect) : mon27 * list expect * pres :=
   match fuel with
   | O => (m, acc, PGo)
   | S fuel' =>
@@ -157,19 +157,19 @@ Fixpoint process27 (fuel : nat) (c : cfg) (m : mon27) (has_cpr_cb : bool) (acc :
               let setu (x : mon27) (u : N) := set_m_used x u in
               let sett (x : mon27) (t : N) := set_m_timer x t in
               match spec_kind (c_phy c) (c_enc c) (m_ver_rcv m) opcode size with
-              | KPing => process27 fuel' c (pop m) has_cpr_cb (acc ++ [EExact [19]])
-              | KUnknown => process27 fuel' c (pop m) has_cpr_cb (acc ++ [EExact [7; opcode]])
-              | KIgnore => process27 fuel' c (pop m) has_cpr_cb acc
-              | KPhyReq => process27 fuel' c (pop m) has_cpr_cb (acc ++ [EExact [23; 3; 3]])
+              | KPing => process27 fuel' c (pop m) cbs (acc ++ [EExact [19]])
+              | KUnknown => process27 fuel' c (pop m) cbs (acc ++ [EExact [7; opcode]])
+              | KIgnore => process27 fuel' c (pop m) cbs acc
+              | KPhyReq => process27 fuel' c (pop m) cbs (acc ++ [EExact [23; 3; 3]])
               | KFeature =>
                   let u := N.land (m_used m) (rd16 body 1) in
-                  process27 fuel' c (pop (setu m u)) has_cpr_cb (acc ++ [EFeature (u mod 256)])
+                  process27 fuel' c (pop (setu m u)) cbs (acc ++ [EFeature (u mod 256)])
               | KVersion =>
                   let m1 := sett m 0 in
                   let m2 := if byte body 1 <=? GenLL.LL_VERSION_40 then setu m1 (N.land (m_used m1) (65535 - cpr_feature)) else m1 in
-                  let m3 := set_m_ver_sent (set_m_ver_rcv m2 true) true in
+                  let m3 := set_m_ver_rcv m2 true in
                   (* a single version indication per connection: none is due if one was already sent *)
-                  process27 fuel' c (pop m3) has_cpr_cb
+                  process27 fuel' c (pop m3) cbs
                             (if m_ver_sent m then acc
                              else acc ++ [EExact [12; GenLL.LL_VERSION_NR; GenLL.company_identifier mod 256; GenLL.company_identifier / 256; 0; 0]])
               | KUnknownRsp | KRejectInd | KRejectExt =>
@@ -177,26 +177,31 @@ Fixpoint process27 (fuel : nat) (c : cfg) (m : mon27) (has_cpr_cb : bool) (acc :
                   let names := (opcode =? 13) || (byte body 1 =? 15) || ((byte body 1 =? 22) && (m_owner m =? 22)) in
                   let m1 := if names then sett m 0 else m in
                   let m2 := if (opcode =? 7) && (byte body 1 =? 15) then setu m1 (N.land (m_used m1) (65535 - cpr_feature)) else m1 in
-                  process27 fuel' c (pop m2) has_cpr_cb acc
+                  process27 fuel' c (pop m2) cbs acc
               | KCpr =>
                   match c_cpr c with
                   | CprAsync =>
                       (* either answered at once or handed to the application (cb:cpr in this operation's result) *)
-                      if cpr_params_ok body && has_cpr_cb then process27 fuel' c (pop m) false acc
-                      else process27 fuel' c (pop m) has_cpr_cb (acc ++ [ECpr body])
-                  | _ => process27 fuel' c (pop m) has_cpr_cb (acc ++ [ECpr body])
+                      match cbs with
+                      | (a, b, l, t) :: cbs' =>
+                          if cpr_params_ok body && (a =? rd16 body 1) && (b =? rd16 body 3) && (l =? rd16 body 5) && (t =? rd16 body 7)
+                          then process27 fuel' c (pop m) cbs' acc
+                          else process27 fuel' c (pop m) cbs (acc ++ [ECpr body])
+                      | [] => process27 fuel' c (pop m) cbs (acc ++ [ECpr body])
+                      end
+                  | _ => process27 fuel' c (pop m) cbs (acc ++ [ECpr body])
                   end
               | KTerminate => (pop m, acc, PClosed)
               | _ => (pop m, acc, PStop)       (* instant based procedures, encryption: other properties *)
               end
           else if llid =? 2 then
             match l2cap_reply body with
-            | L2Drop => process27 fuel' c (pop m) has_cpr_cb acc
-            | L2Reply _ => if m_txa m then process27 fuel' c (pop m) has_cpr_cb acc else (m, acc, PGo)
+            | L2Drop => process27 fuel' c (pop m) cbs acc
+            | L2Reply _ => if m_txa m then process27 fuel' c (pop m) cbs acc else (m, acc, PGo)
             end
           else
             (* LLID 1 without a preceding start: a fragment nobody waits for, dropped *)
-            process27 fuel' c (pop m) has_cpr_cb acc
+            process27 fuel' c (pop m) cbs acc
       end
   end.
 
@@ -205,8 +210,8 @@ Definition tx3 (it : list item) : list (list N) :=
 Definition has_adv (it : list item) : bool := existsb (fun i => match i with IAdv _ => true | _ => false end) it.
 Definition has_closed (it : list item) (r : N) : bool :=
   existsb (fun i => match i with ICb (EvClosed x) => x =? r | _ => false end) it.
-Definition has_cpr_callback (it : list item) : bool :=
-  existsb (fun i => match i with ICb (EvCpr _ _ _ _) => true | _ => false end) it.
+Definition cpr_callbacks (it : list item) : list (N * N * N * N) :=
+  flat_map (fun i => match i with ICb (EvCpr a b l t) => [(a, b, l, t)] | _ => [] end) it.
 Definition last_ce (it : list item) : option (N * N) :=
   fold_left (fun a i => match i with ICe _ s e _ => Some (s, e) | _ => a end) it None.
 
@@ -231,7 +236,10 @@ Definition own_pdu (m : mon27) : option (expect * mon27) :=
       Some (EExact ([15; a mod 256; (a / 256) mod 256; b mod 256; (b / 256) mod 256; l mod 256; (l / 256) mod 256;
                      t mod 256; (t / 256) mod 256; 0; 0; 0] ++ repeat 255 12),
             arm (set_m_cpr m None) 15)
-  | None, Some (t, r), _, _ => Some (EExact [22; t; r], arm (set_m_phy m None) 22)
+  | None, Some (t, r), _, _ =>
+      (* the PHY update procedure has a response timeout of its own (Core Vol 6 Part B 5.1.10); a timer that already
+         runs for an earlier own procedure is left alone *)
+      Some (EExact [22; t; r], if m_timer m =? 0 then arm (set_m_phy m None) 22 else set_m_phy m None)
   | None, None, true, _ =>
       Some (EExact [12; GenLL.LL_VERSION_NR; GenLL.company_identifier mod 256; GenLL.company_identifier / 256; 0; 0],
             arm (set_m_ver m false) 12)
@@ -305,7 +313,7 @@ Definition mstep27 (c : cfg) (m : mon27) (o : lop) (r : lout) : verdict * mon27 
                 let rx := m_rx m ++ filter (fun p => negb (N.of_nat (length (snd p)) =? 0) && negb (N.land (fst p) 3 =? 0))
                                            (map (fun p => (N.land (fst p) 3, snd p)) pdus) in
                 let m1 := set_m_ver_sent (set_m_exp (set_m_rx m rx) []) ver_sent in
-                let '(m2, due, res) := process27 (S (length rx)) c m1 (has_cpr_callback it) [] in
+                let '(m2, due, res) := process27 (S (length rx)) c m1 (cpr_callbacks it) [] in
                 match res with
                 | PClosed => (Ok, ended c m2)
                 | PStop => (Ok, if has_adv it then ended c m2 else stop27 m2)
